@@ -20,7 +20,7 @@ NoObj == [vs |-> "none", bs |-> "none", roots |-> 0, wroots |-> 0, s |-> <<>>, p
 MonInit == [cfg |-> [fin |-> TRUE, weak |-> TRUE, dbg |-> TRUE, auto |-> FALSE, clean |-> FALSE, ns |-> 2, np |-> 0, nw |-> 0, run |-> 0],
             objs |-> <<>>, stack |-> <<>>, seen |-> {}, viol |-> <<>>, log |-> <<>>, n |-> 0,
             bytes |-> 0, blocks |-> <<>>, faulted |-> FALSE, resur |-> FALSE, x |-> 0, lastbf |-> 0,
-            acfg |-> [auto |-> FALSE, pn |-> 1, pd |-> 10, bt |-> 0]]
+            acfg |-> [auto |-> FALSE, pn |-> 1, pd |-> 10, bt |-> 0], big |-> FALSE]
 
 Ids(m) == DOMAIN m.objs
 Obj(m, o) == m.objs[o]
@@ -54,7 +54,7 @@ WCntObs(m, o) == WCnt(m, o) + m.objs[o].winfl
 \* ------------------------------------------------------------------ verdicts
 Flag(m, cond, prop, msg) ==
   IF cond /\ prop \notin DOMAIN m.viol
-  THEN [m EXCEPT !.viol = @ @@ (prop :> [msg |-> msg, n |-> m.n, run |-> m.cfg.run, faulted |-> m.faulted, resur |-> m.resur])]
+  THEN [m EXCEPT !.viol = @ @@ (prop :> [msg |-> msg, n |-> m.n, run |-> m.cfg.run, faulted |-> m.faulted, resur |-> m.resur, big |-> m.big])]
   ELSE m
 
 \* ------------------------------------------------------------------ frames
@@ -133,6 +133,14 @@ OnCall(m0, e) ==
                IF Known(m, o) /\ m.objs[o].roots > 0
                THEN [m EXCEPT !.objs[o].roots = @ - 1, !.objs[o].infl = @ + 1]
                ELSE harness(m, TRUE, "unwrap of unknown handle")
+          [] op = "dropn" ->
+               IF Known(m, o) /\ m.objs[o].roots >= e.n
+               THEN [m EXCEPT !.objs[o].roots = @ - e.n, !.objs[o].infl = @ + e.n]
+               ELSE harness(m, TRUE, "dropn of handles the ghost does not know")
+          [] op = "dropwn" ->
+               IF Known(m, o) /\ m.objs[o].wroots >= e.n
+               THEN [m EXCEPT !.objs[o].wroots = @ - e.n]
+               ELSE harness(m, TRUE, "dropwn of handles the ghost does not know")
           [] op = "dropw" ->
                IF Known(m, o) /\ m.objs[o].wroots > 0
                THEN [m EXCEPT !.objs[o].wroots = @ - 1]
@@ -210,7 +218,11 @@ CheckObs(m, e) ==
       m5 == IF "rw" \in DOMAIN e THEN CheckRw(m4, e.rw) ELSE m4
       m6 == IF "walk" \in DOMAIN e THEN CheckWalk(m5, e) ELSE m5
       m7 == Flag(m6, "obspanic" \in DOMAIN e, "C07", "observing the program's own handles panicked")
-  IN [m7 EXCEPT !.x = e.x, !.lastbf = IF "walk" \in DOMAIN e THEN Len(e.walk) ELSE @]
+      bigNow == ("sc" \in DOMAIN e /\ \E i \in DOMAIN e.sc : e.sc[i][2] >= 16000 \/ e.sc[i][3] >= 32000)
+  IN [m7 EXCEPT !.big = @ \/ bigNow, !.x = e.x, !.lastbf = IF "walk" \in DOMAIN e THEN Len(e.walk) ELSE @]
+
+MaxStrong == 16382
+MaxWeak == 32767
 
 \* ------------------------------------------------------------------ policy facts (config.rs)
 Pow2Mult(thr) == \E k \in 0..24 : thr = 100 * (2 ^ k)
@@ -245,6 +257,9 @@ OnRet(m00, e) ==
         CASE op \in DropLike /\ Known(m0, o) ->
                [m0 EXCEPT !.objs[o].infl = @ - 1, !.objs[o].slack = IF pan THEN @ + 1 ELSE @]
           [] op = "clone" /\ ~pan /\ Known(m0, o) -> [m0 EXCEPT !.objs[o].roots = @ + 1]
+          [] op = "clonen" /\ ~pan /\ Known(m0, o) -> [m0 EXCEPT !.objs[o].roots = @ + fr.c.n]
+          [] op = "clonewn" /\ ~pan /\ Known(m0, o) -> [m0 EXCEPT !.objs[o].wroots = @ + fr.c.n]
+          [] op = "dropn" /\ Known(m0, o) -> [m0 EXCEPT !.objs[o].infl = @ - fr.c.n, !.objs[o].slack = IF pan THEN @ + fr.c.n ELSE @]
           [] op = "new" /\ ~pan /\ Known(m0, o) -> [m0 EXCEPT !.objs[o].roots = @ + 1]
           [] op = "newcyc" /\ Known(m0, o) ->
                IF pan THEN [m0 EXCEPT !.objs[o].winfl = 0]
@@ -283,8 +298,19 @@ OnRet(m00, e) ==
       \* ---- panic accounting (C07-b/c)
       mH == Flag(mG, fr.fault /\ ~pan, "C07", "an injected panic was swallowed by " \o op)
       mI == Flag(mH, fr.fault /\ lim = 0 /\ pan /\ e.panic # "inj", "C07", "an injected panic was replaced by " \o e.panic)
+      \* documented saturation panic: only at the limit, and only from the operations that create a pointer
+      StrongMakers == {"clone", "clonef", "set", "upgrade", "upgradef", "clonen"}
+      WeakMakers == {"downgrade", "clonew", "setw", "savew", "clonewn"}
+      tgt == IF op \in {"clonef", "upgradef"} THEN (IF SlotOk(m00, fr.c.a, fr.c.k, fr.c.i) THEN SlotGet(m00.objs[fr.c.a], fr.c.k, fr.c.i) ELSE 0)
+             ELSE IF op = "set" THEN fr.c.b ELSE o
+      atMaxS == Known(m00, tgt) /\ Cnt(m00, tgt) + m00.objs[tgt].slack >= MaxStrong
+      atMaxW == Known(m00, tgt) /\ WCntObs(m00, tgt) >= MaxWeak
+      okMax == (op \in StrongMakers /\ atMaxS) \/ (op \in WeakMakers /\ atMaxW)
+      mI0 == Flag(mI, e.panic = "max" /\ ~okMax, "C16", op \o " panicked with a saturation error below the supported maximum")
+      mI1 == Flag(mI0, ~pan /\ ((op \in StrongMakers \ {"clonen"} /\ atMaxS /\ ~(op \in {"upgrade", "upgradef"} /\ res = "none")) \/ (op \in WeakMakers \ {"clonewn"} /\ atMaxW)), "C16",
+                  op \o " succeeded beyond the supported maximum number of pointers")
       unexpl == pan /\ ~fr.fault /\ e.panic \notin {"max", "unwind"} /\ ~(e.panic = "fagain" /\ op = "fagain")
-      mJ == Flag(mI, unexpl, IF m00.faulted THEN "C07" ELSE IF op \in DropLike \cup {"dropval"} THEN "C04" ELSE IF op = "collect" THEN "C02" ELSE "C01", "unexpected panic " \o e.panic \o " in " \o op)
+      mJ == Flag(mI1, unexpl, IF m00.faulted THEN "C07" ELSE IF op \in DropLike \cup {"dropval"} THEN "C04" ELSE IF op = "collect" THEN "C02" ELSE "C01", "unexpected panic " \o e.panic \o " in " \o op)
       mK == IF pan /\ lim = 0 THEN [mJ EXCEPT !.faulted = TRUE] ELSE mJ
       \* ---- observations
       mL == CheckObs(mK, e)
